@@ -180,7 +180,7 @@ func corpusMain(args []string) error {
 	out := fs.String("out", "", "observation ndjson")
 	jobs := fs.Int("j", 16, "parallelism")
 	gocache := fs.String("gocache", "", "GOCACHE to use")
-	deadline := fs.Duration("deadline", 120*time.Second, "per (scenario, option set) run deadline")
+	deadline := fs.Duration("deadline", 900*time.Second, "per (scenario, option set) run deadline")
 	verifTag := fs.Bool("verif", false, "peg was built with -tags verif: record machine-step events")
 	raceBuild := fs.Bool("race", false, "build the batch binary with the race detector")
 	_ = fs.Parse(args)
